@@ -460,33 +460,34 @@ func checkDur(c DurCase, ctx *vcommon.Ctx) *vcommon.Failure {
 	if f != nil {
 		return f
 	}
-	if ref.Ns.IsInt() {
+	// duration-ns against exact arithmetic.  Every component that is a whole
+	// number of nanoseconds must be counted exactly; for a component with
+	// sub-nanosecond digits the property does not say how it rounds, so either
+	// neighbour is accepted (".4ns.6ns" may be 0, 1 or 2 ns).
+	mag := new(big.Int).Abs(big.NewInt(n))
+	if n != 0 && (n < 0) != ref.Neg {
+		return vcommon.Failf("duration/sign", "(duration-ns (parse-duration %q)) = %d has the wrong sign", c.S, n)
+	}
+	if ref.SubNs == 0 {
 		ctx.Class("exact-integral")
-		if ref.Ns.Num().Cmp(big.NewInt(n)) != 0 {
-			key := "duration/ns"
-			// one defect class gets its own key: the result falls short of the
-			// exact value by at most 1 ns per component written with a fraction
-			// (the signature of scaling the fraction in floating point and
-			// truncating)
-			short := new(big.Int).Sub(new(big.Int).Abs(ref.Ns.Num()), new(big.Int).Abs(big.NewInt(n)))
-			if ref.FracComps > 0 && short.Sign() > 0 && short.Cmp(big.NewInt(int64(ref.FracComps))) <= 0 && (n == 0 || (n < 0) == (ref.Ns.Sign() < 0)) {
-				key = "duration/ns-fraction-float-rounding"
-			}
-			return vcommon.Failf(key, "(duration-ns (parse-duration %q)) = %d, exact value is %s ns", c.S, n, ref.Ns.RatString())
-		}
 		if ref.Components >= 2 || ref.FracComps >= 1 {
 			ctx.NonTrivial(c.S)
 			ctx.Note(fmt.Sprintf("%q = %d ns", c.S, n))
 		}
 	} else {
-		// sub-nanosecond digits: the property does not say how they round;
-		// allow one nanosecond per fractional component
-		ctx.Class("sub-ns-fraction-tolerance")
-		diff := new(big.Rat).Sub(new(big.Rat).SetInt64(n), ref.Ns)
-		diff.Abs(diff)
-		if diff.Cmp(new(big.Rat).SetInt64(int64(ref.FracComps))) > 0 {
-			return vcommon.Failf("duration/ns-tolerance", "(duration-ns (parse-duration %q)) = %d, exact value is %s ns (more than %d ns away)", c.S, n, ref.Ns.FloatString(6), ref.FracComps)
+		ctx.Class("sub-ns-digits-either-neighbour")
+	}
+	if mag.Cmp(ref.FloorMag) < 0 || mag.Cmp(ref.CeilMag) > 0 {
+		key := "duration/ns"
+		// one defect class gets its own key: the result falls short of the
+		// exact value by at most 1 ns per component written with a fraction
+		// (the signature of scaling the fraction in floating point and
+		// truncating)
+		short := new(big.Int).Sub(ref.FloorMag, mag)
+		if ref.FracComps > 0 && short.Sign() > 0 && short.Cmp(big.NewInt(int64(ref.FracComps))) <= 0 {
+			key = "duration/ns-fraction-float-rounding"
 		}
+		return vcommon.Failf(key, "(duration-ns (parse-duration %q)) = %d, exact value is %s ns (acceptable magnitudes %v..%v)", c.S, n, ref.Ns.FloatString(12), ref.FloorMag, ref.CeilMag)
 	}
 	// duration-s / duration-ms against the exact quotient of the duration's
 	// own nanosecond count: exact when |n| <= 2^53 (the int→float conversion is
